@@ -58,8 +58,11 @@ ASSUMPTIONS = [
 OWL_SAMEAS = "http://www.w3.org/2002/07/owl#sameAs"
 SKOS_EXACT = "http://www.w3.org/2004/02/skos/core#exactMatch"
 FOREIGN = "http://www.w3.org/2000/01/rdf-schema#seeAlso"
-UBASE = ["http://x.org/", "http://x.org/a_", "https://id.org/go:", "http://purl.org/obo/GO_", "http://x.org/a/", "urn:x:", "http://y.org/q?id=", "http://é.org/", "http://purl.org/obo/", "http://x.org/a_b_", "http://e\u0301.org/", "http://x.org/cafe\u0301/"]
-IDS = ["1", "0001", "a/b", "x#y", "é", "A_1", "", "Cafe\u0301", "\u2126", "\u212b1"]
+UBASE = ["http://x.org/", "http://x.org/a_", "https://id.org/go:", "http://purl.org/obo/GO_", "http://x.org/a/", "urn:x:", "http://y.org/q?id=", "http://é.org/", "http://purl.org/obo/", "http://x.org/a_b_", "http://e\u0301.org/", "http://x.org/cafe\u0301/",
+         # (percent escapes are characters of the URI like any other: what the transport decodes once must not be decoded twice -
+         #  seed C18-T)
+         "http://y.org/ols?iri=http%3A%2F%2Fx.org%2Fobo%2FGO_"]
+IDS = ["1", "0001", "a/b", "x#y", "é", "A_1", "", "Cafe\u0301", "\u2126", "\u212b1", "Caf%C3%A9", "AC%2FDC", "a%20b", "100%25"]
 TYPES = list(CANON) + ["text/html", "application/rdf+xml", "text/plain", "application/ld+json", "image/png"]
 
 
